@@ -6,12 +6,14 @@ import Goat.Driver.TreeSort
 import Goat.Driver.Scope
 import Goat.Driver.Opt
 import Goat.Driver.Check
+import Goat.Driver.IntMap
 /-! goatmodel: one operation per input line, one canonical output line per operation. -/
 open Goat.Driver
 
 structure DriverState where
   omap : OMapState := {}
   scope : Goat.Scope.C := {}
+  imap : IMapState := {}
 
 def step (st : DriverState) (line : String) : DriverState × String :=
   match (line.trimAscii.toString.splitOn " ").filter (· ≠ "") with
@@ -20,6 +22,7 @@ def step (st : DriverState) (line : String) : DriverState × String :=
   | "load" :: args => (st, loadCmd args)
   | "tsort" :: args => (st, tsortCmd args)
   | "opt" :: args => (st, optCmd args)
+  | "imap" :: args => let (s, o) := imapCmd st.imap args; ({ st with imap := s }, o)
   | "verify" :: args => (st, verifyCmd args)
   | "effect" :: args => (st, effectCmd args)
   | "scope" :: args => let (s, o) := scopeCmd st.scope args; ({ st with scope := s }, o)
